@@ -275,3 +275,52 @@ def sensor_check(chk):
     chk.correspondence("TankSensorDevice.value on fault patterns: result in [0,100], dead ADC reads 0, one reading takes ≤ 5 s (R of C04.latency_bound)", len(cases), len(bad), detail=bad[:3] or None)
     for b in bad[:1]:
         chk.violation("tank-sensor-dead-adc", f"TankSensorDevice.value gave {b[1]} after {b[2]} s for ADC pattern {b[0]}", {"kind": "sensor", "pattern": b[0]})
+
+
+def latency_monitor(chk):
+    """C04 on the real composed system: drop the level (or kill the ADC) at generated offsets in every phase in which the
+    tank runs; the halt must be published within 30 s."""
+    from sim import scenario
+
+    rng = random.Random(chk.seed + 11)
+    worst = 0.0
+    n = 0
+    modes = [("eco", 80, "high"), ("eco", 50, "normal"), ("eco", 28, "low"), ("standby", 50, "normal"), ("standby", 80, "high"), ("overflow", 80, "high"), ("comfort", 50, "normal"), ("sweep", 50, "normal")]
+    reps = 2 if chk.tier == "quick" else 12
+    for mode, lvl, leaf in modes:
+        for _ in range(reps):
+            off = rng.choice([0.0, 0.3, 4.9, 5.0, 9.9, 10.0, rng.uniform(0, 20)])
+            dead = rng.random() < 0.6
+            acts = [["tank", lvl], ["mqtt", "/settings/mode", "eco"], ["run", 150]]
+            if mode in ("standby", "overflow", "comfort", "sweep"):
+                acts += [["mqtt", "/settings/mode", "standby" if mode != "overflow" else "overflow"], ["run", 420]]
+                if mode == "comfort":
+                    acts += [["mqtt", "/settings/mode", "comfort"], ["run", 30]]
+                if mode == "sweep":
+                    acts += [["mqtt", "/settings/mode", "sweep"], ["run", 30]]
+            acts += [["run", off]]
+            r = scenario.Runner({"tank_raw": 1000.0, "cover_rate": 25.0}, [])
+            for a in acts:
+                r.do(a)
+            st = r.sys.state("Tank")
+            if st not in ("low", "normal", "high"):
+                r.world.close()
+                continue
+            t0 = r.world.now_us
+            if dead:
+                r.sys.adc.fault = True
+            else:
+                r.sys.set_tank_level(rng.choice([0, 5, 9, 9.5, 9.7, 9.9]))
+            r.run_prompt(60)
+            th = [e[0] for e in r.world.log if e[1] == "publish" and e[2][0] == "/status/filtration/state" and e[2][1] == "halt" and e[0] > t0]
+            lat = (th[0] - t0) / 1e6 if th else None
+            n += 1
+            key_mode = r.sys.state("Filtration")
+            r.world.close()
+            if lat is None or lat > 30.0:
+                chk.violation(f"tank-halt-latency:{st}:{'dead-sensor' if dead else 'too-low'}", f"level {'sensor dead' if dead else 'below too_low'} in tank state {st} (mode {mode}): halt after {lat} s (> 30 s)",
+                              {"kind": "latency", "actions": acts, "dead": dead, "latency": lat})
+            else:
+                worst = max(worst, lat)
+    chk.correspondence("C04 monitor on the real composed system: level drop / dead ADC at generated offsets in every mode -> halt within 30 s", n, 0, distribution={"worst_latency_s": round(worst, 2)})
+    chk.extra["worst_halt_latency_s"] = round(worst, 2)
